@@ -201,6 +201,11 @@ def kernel_cases(chk, drv, C):
         else:
             f0 = np.full(n, rng.uniform(-3, 3))
         c, dt, fam = gen_shift(rng, pts, mode)
+        if it % 11 == 4:
+            # feet that leave the domain by very little (far above rounding, far below a cell): the boundary rule has no tolerance
+            c = [1.0, -1.0, 0.5, -2.0][(it // 11) % 4]
+            dt = [1e-6, 2e-5, 1e-9, 3e-7, 6e-5][(it // 44) % 5] / abs(c)
+            fam = 'tiny'
         case = {'kind': kind, 'ncells': ncells, 'lo': lo, 'hi': hi, 'mode': mode, 'r': r, 'c': c, 'dt': dt,
                 'family': fam, 'f': [float(x) for x in f0], 'nonuniform_breaks': [float(x) for x in basis.breaks]}
         # --- the real code
@@ -212,12 +217,19 @@ def kernel_cases(chk, drv, C):
                     'CTe': rng.uniform(0.6, 1.4), 'kTe': rng.uniform(0.05, 0.4), 'deltaRTe': rng.uniform(0.8, 3.0),
                     'kN0': rng.uniform(0.02, 0.1), 'deltaRN0': rng.uniform(1.5, 4.0)}
             case['profile_constants'] = prof
-        for k_, v_ in prof.items():
+        # every fourth case the constants object gets its profile only AFTER the operators were built (a scan that re-uses its operators):
+        # the boundary value is the equilibrium of the constants at the time of the step
+        late = it % 4 == 3
+        case['constants_set_after_construction'] = late
+        for k_, v_ in (prof_default if late else prof).items():
             setattr(C, k_, v_)
         # another operator on the same space with another boundary mode is built (and used once) first in the same process
         decoy = VParallelAdvection([None, None, None, pts], basis, C, modes[(edge + 1) % 3])
         decoy.step(f0.copy(), 0.5 * dt + 0.1, -c, r)
         adv = VParallelAdvection([None, None, None, pts], basis, C, mode)
+        if late:
+            for k_, v_ in prof.items():
+                setattr(C, k_, v_)
         # the line is handed over as a strided view every third time (a line of a 4-D array in another memory order)
         big = np.full(2 * n, 3.5)
         f = big[::2] if it % 3 == 0 else f0.copy()
@@ -450,8 +462,9 @@ def grid_sequence(chk, C):
     from pygyro.advection.advection import VParallelAdvection
     rng = chk.rng
     npts = (6, 8, 8, 9)
-    for forced in ([(1, 2), (2, 2)] if chk.quick() else [(1, 1), (1, 2), (2, 1), (2, 2), (3, 2), (2, 4)]):
-        dt1, dt2 = rng.choice([(0.35, 0.7), (-0.4, 1.3), (0.5, -0.25)])
+    for kf, forced in enumerate([(1, 2), (2, 2)] if chk.quick() else [(1, 1), (1, 2), (2, 1), (2, 2), (3, 2), (2, 4)]):
+        # by position: a zero-length second step (it must leave the data alone), then the other pairs
+        dt1, dt2 = [(0.35, 0.0), (-0.4, 1.3), (0.35, 0.7), (0.5, -0.25)][kf % 4]
 
         def body():
             o = c05.build(npts, forced, 0.8, start='v_parallel', seed=3)
